@@ -10,17 +10,25 @@ RULE = ("NS/getNS on random strings (incl. truncated buffers, counts 0..3), MP/g
         "ECDSA 256/384/521, Ed25519) compared with the model's blob/fromBlob; every serialisation format x passphrase "
         "by oracle only (no model: PEM/DER/bcrypt come from `cryptography`); distinct = op x size class x outcome")
 TRUSTED = ["`cryptography` for key generation, PEM/DER, ciphers and bcrypt-KDF (key formats other than the public blob are "
-           "checked differentially by the oracle only — labelled oracle_only_cases in the evidence)"]
+           "checked differentially by the oracle only — labelled oracle_only_cases in the evidence)",
+           "harness/py2lean.py (translator: conch/ssh/common.py NS, getNS, MP, getMP are regenerated into lean/Generated/SshWire.lean on "
+           "every run — bytes as List UInt8, raising functions as Except PyErr, struct.pack/unpack('!L'/'>L'), int_to_bytes and "
+           "int.from_bytes as the fixed primitives packU32/unpackU32/intToBytes/intFromBytesBig over u32be/beToNat/natToBE, s[a:b] as "
+           "(s.take b).drop a, the loop over range(count) as List.foldlM of the generated loop body; translator-regenerated kernel "
+           "proved equal to the model: TwistedProps.C37.gen_NS, gen_getNS, gen_MP, gen_getMP; round trips restated over the "
+           "regenerated definitions: gen_getNS_NS, gen_getMP_MP)"]
 ASSUMES = ["EC points are opaque bytes in the model (04||x||y is produced and parsed by `cryptography`)",
            "strings shorter than 2^32 bytes (struct.pack('!L') refuses longer ones)"]
 MANIFEST = {
     "text": "Lean theorems (TwistedProps/C37.lean): for every byte string s (< 2^32 bytes) and rest r, getNS(NS(s)+r) = (s, r), and for every "
             "list of strings with count; for every integer n >= 0 and rest r, getMP(MP(n)+r) = (n, r) (minimal big-endian with the 0x80 "
-            "padding rule), negative n refused; public-key blobs of all four key types parse back to the same components. Model tied "
+            "padding rule), negative n refused; public-key blobs of all four key types parse back to the same components. NS/getNS/MP/getMP "
+            "are regenerated from common.py by the translator on every run and proved equal to the model's (gen_*). Model tied "
             "to common.py / keys.py by differential runs incl. a generated key pool; private-key formats (OpenSSH v1/PEM with and "
             "without passphrase, LSH, agent v3, private blob) are checked by the round-trip oracle only - partial for that half.",
     "note": "trusts Lean kernel, the hand model of common.py and Key.blob/_fromString_BLOB (differentially tied), `cryptography`, struct",
-    "technique": "Lean 4 proof (big-endian codec lemmas, induction over string lists) + differential tie; key formats: differential oracle",
+    "technique": "Lean 4 proof (big-endian codec lemmas, induction over string lists) + differential tie + translator-regenerated "
+                 "kernel (NS/getNS/MP/getMP) proved equal to the model; key formats: differential oracle",
     "design_ref": "DESIGN.md §7.6 C37",
 }
 
